@@ -323,12 +323,25 @@ def rule_A_PUBFAIL(ctx, repo, cache):
                         elif x.kind in ('UNLINK', 'RMTREE') and x.args and on_self_store(x.args[0]) and not same_path(x.args[0], staging_of(evs)):
                             bad = (o, e, x, 'removes the live object')
                     break
+        # ... and when the publishing rename itself fails (the target exists again: another writer stored the key in between), nothing is removed but the
+        # writer's own staging copy
+        if bad is None:
+            for o in outs:
+                evs = o.st.events
+                for i, e in enumerate(evs):
+                    if e.kind == 'RENAME!' and len(e.args) > 1 and on_self_store(e.args[1]):
+                        for x in evs[i + 1:]:
+                            if x.kind in ('UNLINK', 'RMTREE') and x.args and on_self_store(x.args[0]) and not same_path(x.args[0], staging_of(evs)) \
+                                    and not same_path(x.args[0], e.args[0]):
+                                bad = (o, e, x, 'removes the live object (which, the rename having failed, is what another writer has just stored)')
+                        break
         ctx.ob('A-PUBFAIL', '%s.%s (%d encode-failure paths)' % (lab, routine, n), bad is None)
         if bad is not None:
             o, e, x, what = bad
-            ctx.fail('A-PUBFAIL', mq(ci, routine), 'failed encode still %s' % x.kind,
-                     'when the value cannot be encoded (%s at %s) %s.%s still %s (%s at %s): a failed write destroys what was stored' % (
-                         e.args[-1][1], wh(ci, e.line), lab, routine, what, x.kind, wh(ci, x.line)), wh(ci, x.line), render_path(o))
+            ctx.fail('A-PUBFAIL', mq(ci, routine), 'failed %s still %s' % ('publish' if e.kind == 'RENAME!' else 'encode', x.kind),
+                     'when %s (%s at %s) %s.%s still %s (%s at %s): a failed write destroys what was stored' % (
+                         'the publishing rename fails' if e.kind == 'RENAME!' else 'the value cannot be encoded', e.args[-1][1], wh(ci, e.line), lab, routine, what,
+                         x.kind, wh(ci, x.line)), wh(ci, x.line), render_path(o))
         if n == 0:
             raise AnalysisError('%s.%s: no encode-failure edge found (may-raise table out of date?)' % (lab, routine))
 
@@ -734,6 +747,35 @@ def rule_A_READFAIL(ctx, repo, cache):
         raise AnalysisError('instance count below confirmed minimum: %d mapping operations examined for escaping read failures (< 20)' % n)
 
 
+def rule_A_RED_MEM(ctx, repo):
+    """A-RED (in-memory archives): the contents of a dict_archive are the dict itself.  Default pickling of a dict subclass carries the items; a
+    __reduce__ (own or inherited from the archive base class) that rebuilds the object through its constructor and restores only the settings drops them -
+    a cached function backed by a dict_archive is cloned with an empty archive and recomputes what the original loads."""
+    m = repo.mod('_archives')
+    n = 0
+    for lab in ('dict_archive',):
+        ci = m.classes.get(lab)
+        if ci is None:
+            raise AnalysisError('anchor vanished: _archives.%s' % lab)
+        n += 1
+        hooks = [h for h in ('__reduce__', '__reduce_ex__', '__getstate__') if h in ci.methods]
+        bad = None
+        for h in hooks:
+            fn = ci.methods[h].node
+            src = unparse(fn)
+            carries = any(tok in src for tok in ('self.items()', 'dict(self)', 'self.__asdict__()', 'iter(self.items())', 'self.copy()', 'dict.items(self)', 'dict.copy(self)'))
+            if not carries:
+                bad = (h, fn)
+        ctx.ob('A-RED', '%s: pickling carries the items' % lab, bad is None)
+        if bad is not None:
+            h, fn = bad
+            ctx.fail('A-RED', mq(ci, h), 'in-memory archive pickled without its contents',
+                     '%s resolves %s to a method that rebuilds the archive from its class and settings only (%s): the entries, which live in the dict itself, '
+                     'are not part of the pickle - the clone of a cached function starts with an empty archive and recomputes what the original loads'
+                     % (lab, h, ' '.join(unparse(fn).split())[:90]), '%s:%d' % (ci.methods[h].module.rel if hasattr(ci.methods[h], 'module') else m.rel, fn.lineno))
+    ctx.ob('A-RED', 'in-memory archive classes examined', True, n=max(1, n))
+
+
 def rule_A_GLOBROOT(ctx, repo):
     """A-GLOBROOT: a directory listing by glob pattern treats the *whole* expression as a pattern.  The archive's own location is data, not pattern:
     it reaches glob() / iglob() only through glob.escape() (pox.walk takes root and patterns separately and is safe).  Otherwise an archive whose path
@@ -778,7 +820,7 @@ def rule_A_GLOBAL(ctx, repo):
     (a registry of connections, handles, contents, names).  Two archive objects then share nothing but their store: in particular every default
     in-memory sqlite archive has its own ':memory:' database, and what one handle did cannot change what another handle of another name sees."""
     n = 0
-    for modname in ('_archives', 'archives', '_abc'):
+    for modname in ('_archives', 'archives', '_abc', '_pickle'):
         m = repo.mod(modname)
         glob = set()
         for name, node in m.consts.items():
@@ -1446,6 +1488,34 @@ def rule_A_FACTORY_OPEN(ctx, repo, cache, open_only=False, do_open=True, factori
                              'for a file archive the whole file is replaced by that snapshot, so a store another process completed in between is lost'
                              % (nm, e.args[1][1], cached), '%s:%d' % (m.rel, e.line), render_path(o))
             # A-OPEN: with cached=False and no seed, merely opening must not write
+            if do_open and cached is True and dict_none is True:
+                # a cached handle seeds the in-memory cache only: an update of the raw backend on this path rewrites the store on every open as well
+                raw = [e for e in o.st.events if e.kind == 'AUPDATE' and not contains_term(e.args[0], lambda t: t[0] == 'call' and t[1] == ('lib', '._archives.cache'))]
+                priv_label = [l for l in ARCHIVE_CLASSES if l.split('[')[0] == nm and l in PERSISTENT]
+                for lab in priv_label:
+                    pci = am.classes[lab]
+                    bad = None
+                    if raw and len(raw[0].args) > 1 and raw[0].args[1] == ('dict', ()):
+                        ufi = pci.methods.get('update')
+                        pa = [x.arg for x in ufi.node.args.args]
+                        params = {pa[1]: ('dict', ())}
+                        if ufi.node.args.kwarg:
+                            params[ufi.node.args.kwarg.arg] = ('dict', ())
+                        fi, uouts, e2 = cache.outs(pci, 'update', params=params, key='emptyseed')
+                        for uo in uouts:
+                            for e, c in effects(uo):
+                                if c in ('write', 'remove', 'clearall', 'rename'):
+                                    bad = (uo, e, c)
+                                    break
+                            if bad:
+                                break
+                    ctx.ob('A-OPEN', '%s factory cached=True -> no update of the raw backend with an empty seed' % lab, bad is None)
+                    if bad is not None:
+                        uo, e, c = bad
+                        ctx.fail('A-OPEN', new.qual, 'opening a cached %s rewrites the store' % lab,
+                                 'archives.%s(name) (cached=True, no seed) calls %s.update({}) on the raw backend, which performs a %s on the existing store (%s): merely '
+                                 'opening the default, cached handle reads the store and writes the snapshot back - a store another process completed in between is lost'
+                                 % (nm, lab, c, wh(pci, e.line)), '%s:%d' % (m.rel, raw[0].line), render_path(uo))
             if do_open and cached is False and dict_none is True:
                 ups = [e for e in o.st.events if e.kind == 'AUPDATE']
                 priv_label = [l for l in ARCHIVE_CLASSES if l.split('[')[0] == nm]
